@@ -247,7 +247,7 @@ def deliver_cancel(rng, root):
     return "maestro cancel %s" % " ".join("<study>" if d == root else "<missing>" for d in dirs)
 
 
-def run(ctx, rng, k, cancel_prob=0.0, max_polls=40, local_prob=0.0, entry="direct"):
+def run(ctx, rng, k, cancel_prob=0.0, max_polls=40, local_prob=0.0, entry="direct", timeouts=0.0):
     """returns dict(mon={prop: [...]}, polls=.., ret=.., spec=.., nontrivial=..)"""
     import maestrowf.conductor as cmod
     from maestrowf.conductor import Conductor
@@ -289,7 +289,7 @@ def run(ctx, rng, k, cancel_prob=0.0, max_polls=40, local_prob=0.0, entry="direc
             st["cancel_at"] = 0
             st["events_at_cancel"] = 0
             st["nontrivial"] = True
-    mon = {"C18": [], "C07": [], "C12": [], "C05": [], "C01": [], "C03": []}
+    mon = {"C18": [], "C07": [], "C12": [], "C05": [], "C01": [], "C03": [], "C06": []}
     st = {"polls": 0, "cancel_at": None, "nontrivial": False, "cancel_calls": 0, "seen_events": 0}
     # C01 at the level of the staged study: the parents of an instance are read
     # from the execution graph's adjacency table (what `maestro status` and the
@@ -332,6 +332,17 @@ def run(ctx, rng, k, cancel_prob=0.0, max_polls=40, local_prob=0.0, entry="direc
         # restart rounds of this poll, read off the scheduler's own record of submissions
         for nm_ in set(ev[1] for ev in S.WORLD.events if ev[0] in ("submit", "local") and ev[2] == "restart"):
             rounds[nm_] = rounds.get(nm_, 0) + 1
+        # C06 at the level of the whole command: the limit the user asked for (-r / configure_study)
+        # bounds the restart rounds of every instance that has a restart command; no other instance
+        # is ever restarted
+        for nm_, cnt in rounds.items():
+            has_r = bool(dag.values[nm_].step.run.get("restart"))
+            if not has_r:
+                mon["C06"].append(("restart-only-with-cmd", "poll %d: %s has no restart command but was "
+                                   "restarted" % (k_, nm_)))
+            elif opts["rlimit"] > 0 and cnt > opts["rlimit"]:
+                mon["C06"].append(("budget", "poll %d: %s was restarted %d times, the limit asked for is %d "
+                                   "(entered through %s)" % (k_, nm_, cnt, opts["rlimit"], entry)))
         table = Conductor.get_status(root)
         tn = table.get("Step Name", [])
         if sorted(tn) != sorted(names):
@@ -370,7 +381,9 @@ def run(ctx, rng, k, cancel_prob=0.0, max_polls=40, local_prob=0.0, entry="direc
             st["nontrivial"] = True
         reps = []
         for nm in inflight:
-            if fair:
+            if timeouts and rng.random() < timeouts and rounds.get(nm, 0) < 5:
+                v = "TIMEDOUT"          # a scheduler whose jobs keep hitting their time limit
+            elif fair:
                 v = E._weighted(rng, [("FINISHED", 14), ("FAILED", 2), ("CANCELLED", 1), ("RUNNING", 2)])
             else:
                 v = E._weighted(rng, E.REPORT_WEIGHTS)
@@ -421,6 +434,22 @@ def run(ctx, rng, k, cancel_prob=0.0, max_polls=40, local_prob=0.0, entry="direc
     dag, names = env["dag"], env["names"]
     # ---- after the conductor returned
     c01_scan()
+    # a request is never thrown away: the request file is removed only by the iteration that acts on it
+    it_ops = []
+    for o in rec.ops:
+        if o.startswith("lockCheck"):
+            it_ops.append([])
+        if it_ops:
+            it_ops[-1].append(o)
+    for i_, ops_ in enumerate(it_ops):
+        if "lockRemove" in ops_ and "cancelStudy" not in ops_:
+            mon["C07"].append(("request-dropped", "iteration %d removed the cancel request file without calling "
+                               "cancel_study (%s)" % (i_ + 1, " ".join(o for o in ops_ if not o.startswith("=")))))
+            break
+    if st["cancel_at"] is not None and st.get("lock_timeouts") and not st.get("observed") \
+            and not os.path.exists(lock):
+        mon["C07"].append(("request-dropped", "the cancel request (delivered after poll %d) is gone but "
+                           "cancel_study was never called" % st["cancel_at"]))
     if st["cancel_at"] is not None and st.get("lock_timeouts") and not st.get("observed"):
         # the injected lock time-outs kept the conductor from seeing the request until the study was
         # over: as far as the properties are concerned there was no request (the file is still there)
